@@ -59,7 +59,9 @@ package response
 
 // validity of a failure-string list: every entry is a real (non-empty) substring to look for
 //@ spec validFWC(l []string) bool := forall i int :: 0 <= i && i < len(l) ==> len(l[i]) > 0
-//@ spec containsAnyS(s string, l []string) bool := exists i int :: 0 <= i && i < len(l) && contains(s, l[i])
+// a failure string is a real string: every output "contains" the empty one, which therefore cannot stand for a failure (an
+// empty entry in a list is ignored, wherever it stands - F13)
+//@ spec containsAnyS(s string, l []string) bool := exists i int :: 0 <= i && i < len(l) && len(l[i]) > 0 && contains(s, l[i])
 // a response's Failed is either nil or a non-nil *OperationError (what Record establishes)
 //@ spec respWF(r *Response) bool := r.Failed == nil || (typeis(r.Failed, "*response.OperationError") && as(r.Failed, "*response.OperationError") != nil)
 //@ spec multiWF(mr *MultiResponse) bool := mr.Failed == nil || (typeis(mr.Failed, "*response.MultiOperationError") && as(mr.Failed, "*response.MultiOperationError") != nil)
@@ -69,14 +71,12 @@ package response
 //@   modifies alloc()
 //@   ensures fresh(result) && result.Failed == nil && result.FailedWhenContains == failedWhenContains && result.Input == input && result.Result == ""
 
-// validFWC is an input-validity condition (failure strings are real, non-empty substrings): with "" in the
-// list the first-match helper returns "", which Record reads as "no match".
 //@ func (*Response).Record [C13]
 //@   requires r.Failed == nil
 //@   modifies r.EndTime, r.ElapsedTime, r.RawResult, r.Result, r.Failed, alloc()
 //@   ensures #result r.Result == b && r.RawResult == b
 //@   ensures #failed-implies-contains r.Failed != nil ==> containsAnyS(b, r.FailedWhenContains)
-//@   ensures #contains-implies-failed validFWC(r.FailedWhenContains) && containsAnyS(b, r.FailedWhenContains) ==> r.Failed != nil
+//@   ensures #contains-implies-failed containsAnyS(b, r.FailedWhenContains) ==> r.Failed != nil
 //@   ensures #wf respWF(r)
 
 //@ func NewMultiResponse [C13]
